@@ -78,7 +78,15 @@ type PredDecl struct {
 	Body   Clause
 }
 
+type AtomicOnlyDecl struct {
+	Pkg   string
+	Field string // Type.field
+	Props []string
+	Where string
+}
+
 type Contracts struct {
+	AtomicOnly []AtomicOnlyDecl
 	Preds      map[string]*PredDecl
 	Ranges     []GuaranteeDecl // assumed ranges of atomic locations
 	Funcs      map[string]*Contract
@@ -352,6 +360,13 @@ func (cs *Contracts) parseContractLines(lines []string, file string, pkgPath str
 			lastClause = &Clause{Text: m[3], Where: where}
 			lastKind = "pred"
 			lastPred = &PredDecl{Name: m[1], Pkg: pkgPath, Params: splitNames(m[2])}
+		case "atomic_only":
+			// atomic_only Type.field props...
+			f := strings.Fields(rest)
+			if len(f) < 2 {
+				return fmt.Errorf("%s: bad atomic_only", where)
+			}
+			cs.AtomicOnly = append(cs.AtomicOnly, AtomicOnlyDecl{Pkg: pkgPath, Field: f[0], Props: f[1:], Where: where})
 		case "range_assumed":
 			f := strings.SplitN(rest, " ", 2)
 			if len(f) != 2 {
